@@ -286,14 +286,19 @@ class C18(Check):
             if not m.startswith(got):
                 ctx.disagree('DimensionValue outcome', w, got, m)
             return
-        _, mtext, msign, mip, mfp, mdim = m.split(' ')
+        _, mtext, msign, mip, mfp, mdim, mexact = m.split(' ')
         mip_s = dec(mip)
         mfp_s = None if mfp == '~' else dec(mfp)
-        # the exact layer of the model does not speak about literals beyond the binary64 window / > 6 digits
-        exact_dom = mfp_s is None or (len(mfp_s) <= 6 and not in_float_region(mip_s, mfp_s))
         txt, sign, value, dim, typ = obs
-        if exact_dom and dec(mtext) != txt:
+        # the binary64 layer of the model is what the implementation computes: every literal
+        if dec(mtext) != txt:
             ctx.disagree('DimensionValue.cssText', w, txt, dec(mtext))
+        # bridge: on its domain the exact layer (which the theorems are about) agrees with the binary64 layer
+        exact_dom = mfp_s is None or (len(mfp_s) <= 6 and not in_float_region(mip_s, mfp_s))
+        if exact_dom and mexact != '=':
+            ctx.disagree('model: exact layer = binary64 layer on literals with <= 6 fraction digits below 2^33 / 2^53',
+                         w, dec(mtext), dec(mexact))
+        ctx.count('bridge:in-domain' if exact_dom else 'bridge:outside-%s' % ('same' if mexact == '=' else 'differs'))
         if dec(msign) != sign:
             ctx.disagree('DimensionValue._sign', w, sign, dec(msign))
         if dec(mdim) != dim:
